@@ -1,40 +1,215 @@
 """C15 - HTTP/2 connection tracing is transparent and attributes frames to the right call.
-spec: H2TraceDecl (declarative Traces), H2Trace (environment + byte-level machine, theorem),
-Gen_H2Trace (behaviours), Trace_H2Trace (acceptor of recorded real traffic)."""
+spec: H2TraceDecl (declarative Traces(handled events)), H2Trace (environment of well-formed traffic +
+byte-level machine; theorem machine == Traces for every interleaving and chunking), Gen_H2Trace
+(behaviours -> replay on the real TracingHTTP2Conn), Trace_H2Trace (acceptor of recorded traffic of
+the real x/net/http2 client and server)."""
 import json
 import os
 import vf
 
 
-def gen(ctx, cfg, **kw):
-    res = ctx.tlc("Gen_H2Trace", cfg, **kw)
+def scenarios(res):
     seen = set()
     out = []
     for ln in res.lines("SCN "):
         ln = ln.strip()
         if '\\"' in ln:
             ln = ln.replace('\\"', '"')
-        if ln in seen:
-            continue
-        seen.add(ln)
-        out.append(ln)
+        if ln not in seen:
+            seen.add(ln)
+            out.append(ln)
     return out
+
+
+def design(ctx):
+    q = ctx.quick
+    runs = ["MC_H2Trace_chunk_q.cfg", "MC_H2Trace_streams_client_q.cfg", "MC_H2Trace_streams_server_q.cfg", "MC_H2Trace_live.cfg"]
+    if not q:
+        runs = ["MC_H2Trace_chunk_client.cfg", "MC_H2Trace_chunk_server.cfg", "MC_H2Trace_streams_client_t.cfg",
+                "MC_H2Trace_streams_server_t.cfg", "MC_H2Trace_live.cfg"]
+    notes = {}
+    for cfg in runs:
+        r = ctx.tlc("H2Trace", cfg, workers=8, timeout=3000)
+        notes[cfg] = dict(distinct=r.distinct, generated=r.generated, wall_s=round(r.wall, 1))
+    # the theorem is not vacuous: machines with one of the real defects built in are rejected
+    for cfg in ["MC_H2Trace_mut_rst.cfg", "MC_H2Trace_mut_goaway.cfg"] + ([] if q else ["MC_H2Trace_mut_cont.cfg"]):
+        r = ctx.tlc("H2Trace", cfg, workers=8, timeout=1200, expect_violation=True)
+        want = "Reassembly" if "cont" in cfg else "Agrees"
+        if r.violated != want:
+            raise vf.Machinery("mutant %s was not rejected by %s (violated=%s)" % (cfg, want, r.violated))
+        notes[cfg] = dict(rejected_by=r.violated, distinct=r.distinct)
+    ctx.notes["design_checks"] = notes
+
+
+def key_of(r):
+    return dict(kind=r.get("kind"), cause=r.get("cause"), side=r.get("side"),
+                missing=len((r.get("diff") or {}).get("missing") or []), extra=len((r.get("diff") or {}).get("extra") or []),
+                differ=len((r.get("diff") or {}).get("differ") or []))
+
+
+def replay(ctx, binp, lines, tag, variants, timeout=3000):
+    scnp = os.path.join(ctx.build, "c15.%s.scn.ndjson" % tag)
+    outp = os.path.join(ctx.build, "c15.%s.out.ndjson" % tag)
+    with open(scnp, "w") as fh:
+        for ln in lines:
+            fh.write(ln + "\n")
+    ctx.run_harness(binp, "TestVerifC15Replay", env=dict(VERIF_SCN=scnp, VERIF_OUT=outp, VERIF_VARIANTS=variants), timeout=timeout)
+    res = vf.read_ndjson(outp)
+    summ = [r for r in res if r.get("summary")]
+    if not summ:
+        raise vf.Machinery("replay harness wrote no summary (%s)" % tag)
+    summ = summ[0]
+    if summ["machinery_errors"]:
+        raise vf.Machinery("replay harness (%s): %d machinery errors, first: %s" % (tag, summ["machinery_errors"], summ["first_machinery_error"]))
+    for r in res:
+        if r.get("summary"):
+            continue
+        if r.get("repro", 0) < 3:
+            ctx.notes["unreproduced"] = ctx.notes.get("unreproduced", 0) + 1
+            ctx.log("unreproduced mismatch ignored: %s" % json.dumps(r)[:300])
+            continue
+        scn = r.pop("scn", None)
+        # an exchange in which two known mechanisms meet is reported under each of them
+        for cause in (r.get("cause") or "other").split("+"):
+          r["cause"] = cause
+          ctx.candidate(key_of(r), "%s side, %s/%s: %s | expected %s | observed %s | frames req=%s resp=%s calls=%s" % (
+            r.get("side"), r.get("kind"), r.get("cause"), r.get("detail"), json.dumps(r.get("exp"))[:500],
+            json.dumps((r.get("run") or {}).get("traces"))[:500],
+            json.dumps([[f["t"], f["s"], f["hk"], f["nm"], f["es"], f["eh"], f["n"], f["code"], f["last"]] for f in scn["req"]]),
+            json.dumps([[f["t"], f["s"], f["hk"], f["es"], f["eh"], f["n"], f["code"], f["last"]] for f in scn["resp"]]),
+            json.dumps([[c["d"], c["u"], c["e"]] for c in scn["calls"]])), dict(scn=scn, vseed=r.get("vseed"), report=r))
+    ctx.cov["evaluations"] += summ["evaluations"]
+    ctx.cov["traces_validated_against_impl"] += summ["scenarios"]
+    ctx.cov["distinct_nontrivial"] += summ["distinct_nontrivial"]
+    ctx.notes["replay_" + tag] = summ
+    ctx.log("replay %s: %s" % (tag, json.dumps(summ)))
+    return scnp
 
 
 def run(ctx):
     q = ctx.quick
-    scn = []
-    scn += gen(ctx, "Gen_H2Trace_small.cfg", timeout=1200)
-    n_ex = len(scn)
-    scn += gen(ctx, "Gen_H2Trace_sim.cfg", workers=4, simulate="num=%d" % (600 if q else 12000), depth=120, timeout=2400)
-    ctx.log("scenarios: %d exhaustive + %d simulated" % (n_ex, len(scn) - n_ex))
-    scnp = os.path.join(ctx.build, "c15.scn.ndjson")
-    outp = os.path.join(ctx.build, "c15.out.ndjson")
-    with open(scnp, "w") as fh:
-        for ln in scn:
-            fh.write(ln + "\n")
     binp = ctx.go_test_bin("internal/tracer", ["c15"])
-    ctx.run_harness(binp, "TestVerifC15Replay", env=dict(VERIF_SCN=scnp, VERIF_OUT=outp, VERIF_VARIANTS=2 if q else 4), timeout=3000)
+    if ctx.replay:
+        rp = json.load(open(ctx.replay))["scenario"]
+        if rp.get("fuzz"):
+            inp = os.path.join(ctx.build, "c15.fuzz1.ndjson")
+            outp = os.path.join(ctx.build, "c15.fuzz1.out.ndjson")
+            vf.write_ndjson(inp, [rp["fuzz"]])
+            ctx.run_harness(binp, "TestVerifC15FuzzOne", env=dict(VERIF_IN=inp, VERIF_OUT=outp), timeout=600)
+            for r in vf.read_ndjson(outp):
+                if not r.get("summary"):
+                    ctx.candidate(dict(kind=r["kind"], fn=r.get("fn"), msg=r.get("msg")), "fuzz input: %s in %s: %s" % (r["kind"], r.get("fn"), r.get("msg")), rp)
+            return
+        replay(ctx, binp, [json.dumps(rp["scn"])], "replay", 4)
+        return
+    # 1. design: machine == declarative Traces, for all interleavings / chunkings within the bounds
+    if not os.environ.get("VERIF_C15_NODESIGN"):   # (mutation sanity runs of the Go code skip the spec-only part)
+        design(ctx)
+    # 2. behaviours: exhaustive chunkings of short exchanges + random walks of long multi-stream ones
+    n_sim = 600 if q else 4000
+    small = scenarios(ctx.tlc("Gen_H2Trace", "Gen_H2Trace_small.cfg", workers=8, timeout=1800))
+    sim = scenarios(ctx.tlc("Gen_H2Trace", "Gen_H2Trace_sim.cfg", workers=4, simulate="num=%d" % n_sim, depth=120, timeout=3000))
+    # the same without CONTINUATION / client GOAWAY / nameless streams: on a tree where those known
+    # defects are present they hide nothing else here
+    sim0 = scenarios(ctx.tlc("Gen_H2Trace", "Gen_H2Trace_sim0.cfg", workers=4, simulate="num=%d" % (n_sim // 2), depth=120, timeout=3000))
+    ctx.log("scenarios: %d exhaustive + %d simulated (all features) + %d simulated (plain)" % (len(small), len(sim), len(sim0)))
+    ctx.notes["scenarios"] = dict(exhaustive=len(small), simulated_full=len(sim), simulated_plain=len(sim0))
+    scnp = replay(ctx, binp, small + sim + sim0, "gen", 2 if q else 3)
+    for ln in (sim[:2] + sim0[:1] + small[:1]):
+        s = json.loads(ln)
+        ctx.sample(dict(side=s["side"], req=[[f["t"], f["s"], f["hk"], f["nm"], f["es"], f["eh"], f["n"], f["code"]] for f in s["req"]],
+                        resp=[[f["t"], f["s"], f["hk"], f["es"], f["eh"], f["n"], f["code"], f["last"]] for f in s["resp"]],
+                        calls=[[c["d"], c["u"], c["e"]] for c in s["calls"]], expected_traces=s["exp"]))
+    # 3. the real 3 s retry timer (thorough): a few behaviours in which a held-back trace is released by the timer
+    if not q:
+        tim = [ln for ln in scenarios(ctx.tlc("Gen_H2Trace", "Gen_H2Trace_timer.cfg", workers=4, simulate="num=1500", depth=90, timeout=1800))
+               if '"timer:' in ln]
+        tim = tim[:: max(1, len(tim) // 24)][:24]
+        ctx.notes["timer_scenarios"] = len(tim)
+        if tim:
+            replay(ctx, binp, tim, "timer", 1, timeout=1800)
+    # 4. robustness: arbitrary and mutated byte streams - every call returns, bytes pass through
+    outp = os.path.join(ctx.build, "c15.fuzz.out.ndjson")
+    n_fuzz = 40000 if q else 1500000
+    ctx.run_harness(binp, "TestVerifC15Fuzz", env=dict(VERIF_SCN=scnp, VERIF_OUT=outp, VERIF_N=n_fuzz), timeout=3000)
     res = vf.read_ndjson(outp)
-    summ = [r for r in res if r.get("summary")][0]
-    ctx.log("replay summary: %s" % json.dumps(summ))
+    fs = [r for r in res if r.get("summary")]
+    if not fs:
+        raise vf.Machinery("fuzz harness wrote no summary")
+    fs = fs[0]
+    for r in res:
+        if r.get("summary"):
+            continue
+        if r.get("repro", 0) < 3:
+            ctx.notes["unreproduced"] = ctx.notes.get("unreproduced", 0) + 1
+            continue
+        ctx.candidate(dict(kind=r["kind"], fn=r.get("fn"), msg=r.get("msg")),
+                      "byte stream (%s of generated exchange %s, %s side): %s in %s: %s" % (
+                          r.get("mut"), r.get("src"), "server" if r["in"]["server"] else "client", r["kind"], r.get("fn"), r.get("msg")),
+                      dict(fuzz=r["in"]))
+    ctx.cov["evaluations"] += fs["inputs"]
+    ctx.notes["fuzz"] = fs
+    ctx.log("fuzz: %s" % json.dumps(fs))
+    # 5. code -> spec: recorded traffic of the real x/net/http2 client and server, accepted by TLC
+    record(ctx, binp)
+    ctx.cov["exhaustive"] = False
+    ctx.cov["rule"] = ("TLC generates well-formed exchanges (environment of H2Trace: HEADERS/CONTINUATION, DATA cut anywhere in the "
+                       "envelopes, RST_STREAM, GOAWAY, racing frames, named/nameless streams, retries under the same name) together "
+                       "with the Read/Write calls in chunking units: exhaustively all chunkings of exchanges of <= 3 frames, random "
+                       "walks for exchanges of 11-16 frames on up to 3 streams; each is serialised with the real Framer/HPACK encoder "
+                       "(2-3 byte-level variants) and replayed through TracingHTTP2Conn as client or server; a scenario is non-trivial "
+                       "if the specification requires or the code produced at least one trace; distinct = distinct (side, frames, calls). "
+                       "evaluations also counts the fuzz inputs (arbitrary / mutated byte streams: no panic, bytes passed through) and "
+                       "the recorded connections of real HTTP/2 traffic accepted by Trace_H2Trace.")
+    ctx.assumptions += [
+        "one connection at a time: a retry on a NEW connection is outside the model (each wrapped conn has its own retry collector)",
+        "streams that are open at the same time carry different test names; a name is reused only after the earlier call under it has finished",
+        "overlapping Read and Write calls are equivalent to the sequential execution of their pieces between consecutive handleFrame critical sections (argued in H2Trace.tla); the replay is sequential",
+        "the 3 s retry timer is exercised in real time in the thorough tier only (watchdog 60 s); elsewhere held-back traces are released by the end of the connection",
+        "1xx interim responses and PUSH_PROMISE are not generated",
+    ]
+
+
+def record(ctx, binp):
+    trp = os.path.join(ctx.build, "c15.trace.ndjson")
+    n = 40 if ctx.quick else 400
+    ctx.run_harness(binp, "TestVerifC15Record", env=dict(VERIF_OUT=trp, VERIF_N=n), timeout=2400)
+    recs = vf.read_ndjson(trp)
+    summ = [r for r in recs if r.get("summary")]
+    recs = [r for r in recs if not r.get("summary")]
+    if not summ or not recs:
+        raise vf.Machinery("record harness wrote no summary / no connections")
+    if summ[0].get("machinery_errors"):
+        raise vf.Machinery("record harness: %s" % summ[0])
+    for r in [r for r in recs if r.get("panic")]:
+        ctx.candidate(dict(kind="recorded-panic", fn=r.get("panic_fn"), msg=r.get("panic"), side=r["side"]),
+                      "the wrapper panicked inside a goroutine of the real x/net/http2 %s (connection %s): %s in %s" % (
+                          r["side"], r.get("conn"), r.get("panic"), r.get("panic_fn")), dict(recorded=r))
+    recs = [r for r in recs if not r.get("panic")]
+    for r in recs:
+        if r.get("hdr"):
+            ctx.candidate(dict(kind="recorded-headers", cause="other", side=r["side"]),
+                          "recorded connection: header fields / content in the trace differ from the wire: %s" % "; ".join(r["hdr"])[:800], dict(recorded=r))
+        if r.get("reqstart"):
+            what = r["reqstart"][0]
+            cause = ("client-requeststart-no-headers" if r["side"] == "client" and all(x.endswith("lists no request headers") for x in r["reqstart"])
+                     else "server-requeststart-content-length-0" if r["side"] == "server" and all(x.endswith("header that was not sent") for x in r["reqstart"])
+                     else "other")
+            ctx.candidate(dict(kind="reqstart", cause=cause, side=r["side"], missing=0, extra=0, differ=0),
+                          "recorded connection (real x/net/http2 traffic), %s side: %s" % (r["side"], what), dict(recorded=r))
+    tlp = os.path.join(ctx.build, "c15.trace.tla.ndjson")
+    vf.write_ndjson(tlp, [dict(side=r["side"], hist=r["hist"], obs=r["obs"]) for r in recs])
+    tr = ctx.tlc("Trace_H2Trace", "Trace_H2Trace.cfg", workers=1, env=dict(VERIF_TRACE=tlp), timeout=2400)
+    if not tr.lines("CONSUMED "):
+        raise vf.Machinery("Trace_H2Trace did not consume the whole file")
+    for ln in tr.lines("REJECT "):
+        r = recs[int(ln.split()[0]) - 1]
+        ctx.candidate(dict(kind="recorded", cause=r.get("cause", "other"), side=r["side"]),
+                      "recorded connection (real x/net/http2 %s, wrapped) rejected by Trace_H2Trace: observed traces %s; frames %s" % (
+                          r["side"], json.dumps(r["obs"])[:700], json.dumps([[f["t"], f["d"], f["s"], f["hk"], f["es"], f["eh"], f["n"], f["code"]] for f in r["hist"]])[:900]),
+                      dict(recorded=r))
+    ctx.cov["traces_validated_against_impl"] += len(recs)
+    ctx.cov["evaluations"] += len(recs)
+    ctx.notes["recorded"] = summ[0]
+    ctx.sample(dict(recorded_connection=dict(side=recs[0]["side"], frames=[[f["t"], f["d"], f["s"], f["hk"], f["es"], f["n"]] for f in recs[0]["hist"]][:30],
+                                             observed=recs[0]["obs"][:2])))
